@@ -167,6 +167,8 @@ def run(tier):
     R.hist["model_mismatches"] = len(bad_model)
     from harness.props import c08_ser
     c08_ser.run_part(R, tier)
+    from harness import probes
+    probes.discriminator_probe(R, {'mutation', 'options'})
     return R.finish(
         rule="every deserialization case is re-run with no_copy flipped, through the precomputed deserialization_method, "
              "and with settings.deserialization.override_dataclass_constructors flipped; results (values with runtime "
